@@ -368,6 +368,207 @@ Proof.
 Qed.
 
 
+
+(* the biclique invariant (distinct names) is established by the constructor and kept by every operation, so the
+   parallel specification describes whole runs *)
+Lemma mem_In k l : mem k l = true <-> In k l.
+Proof.
+  unfold mem. rewrite existsb_exists. split.
+  - intros (x & Hx & E). apply Z.eqb_eq in E. subst; auto.
+  - intros H. exists k. split; auto. apply Z.eqb_refl.
+Qed.
+Lemma NoDup_snoc (l : list Z) k : NoDup l -> ~ In k l -> NoDup (l ++ [k]).
+Proof.
+  induction l as [|x t IH]; simpl; intros Hn Hk.
+  - constructor; [intros []|constructor].
+  - inversion Hn; subst. constructor.
+    + rewrite in_app_iff. simpl. intros [H|[H|[]]]; auto.
+    + apply IH; auto.
+Qed.
+Lemma add_all_nodup {A} (l : list (Z * A * option (V -> V))) : forall acc r,
+  add_all V l acc = Ok r -> NoDup (keys acc) -> NoDup (keys r).
+Proof.
+  induction l as [|[[k a] t] tl IH]; intros acc r; simpl.
+  - intros H; inversion H; subst; auto.
+  - destruct (mem k (keys acc)) eqn:E; [discriminate|]. intros H Hn. apply (IH _ _ H).
+    unfold keys. rewrite map_app. simpl. apply NoDup_snoc; auto.
+    intros Hx. apply mem_In in Hx. unfold keys in E. congruence.
+Qed.
+Lemma dset_keys_in {A} k (a : A) l x : In x (keys (dset k a l)) <-> x = k \/ In x (keys l).
+Proof.
+  induction l as [|[k2 a2] t IH]; simpl.
+  - intuition.
+  - destruct (Z.eqb k k2) eqn:E; simpl.
+    + apply Z.eqb_eq in E. subst. intuition.
+    + rewrite IH. intuition.
+Qed.
+Lemma dset_nodup {A} k (a : A) l : NoDup (keys l) -> NoDup (keys (dset k a l)).
+Proof.
+  induction l as [|[k2 a2] t IH]; simpl; intros Hn.
+  - constructor; [intros []|constructor].
+  - inversion Hn; subst. destruct (Z.eqb k k2) eqn:E; simpl.
+    + constructor; auto.
+    + constructor; auto. rewrite dset_keys_in. apply Z.eqb_neq in E. intros [H|H]; [congruence|auto].
+Qed.
+Lemma trs_of_nodup {A} (l : list (Z * A * option (V -> V))) : NoDup (keys (trs_of V l)).
+Proof.
+  unfold trs_of.
+  assert (G : forall (acc : list (Z * (V -> V))), NoDup (keys acc) ->
+              NoDup (keys (fold_left (fun acc p => dset (fst (fst p)) (otr V (snd p)) acc) l acc))).
+  { induction l as [|p tl IH]; intros acc Ha; simpl; auto. apply IH. apply dset_nodup; auto. }
+  apply G. constructor.
+Qed.
+Theorem biclique_new_wf cs ns combine Bq :
+  biclique_new V CS NS compat cs ns combine = Ok Bq -> b_wf Bq.
+Proof.
+  unfold biclique_new. destruct cs as [|c cs']; [discriminate|]. destruct ns as [|n ns']; [discriminate|].
+  destruct (add_all V (c :: cs') []) as [cl|e] eqn:E1; simpl; [|discriminate].
+  destruct (add_all V (n :: ns') []) as [nl|e] eqn:E2; simpl; [|discriminate].
+  destruct (forallb _ cl); [|discriminate].
+  intros H; inversion H; subst. unfold b_wf; simpl.
+  split; [|split].
+  - eapply add_all_nodup; eauto. constructor.
+  - eapply add_all_nodup; eauto. constructor.
+  - apply trs_of_nodup.
+Qed.
+Lemma run_mods_keys {S I} (st : Z -> S -> I -> res (S * V)) ins : forall ms ms' ys,
+  run_mods st ms ins = Ok (ms', ys) -> keys ms' = keys ms.
+Proof.
+  induction ins as [|[k x] tl IH]; intros ms ms' ys; simpl.
+  - intros H; inversion H; auto.
+  - destruct (lookup k ms) as [m|]; [|discriminate].
+    destruct (st k m x) as [[m' y]|e]; simpl; [|discriminate].
+    destruct (run_mods st (update k m' ms) tl) as [[ms2 ys2]|e] eqn:E; simpl; [|discriminate].
+    intros H; inversion H; subst. rewrite (IH _ _ _ E). apply keys_update.
+Qed.
+Lemma layer_forward_keys wiring L ins ckw nkw L' out :
+  lforward wiring L ins ckw nkw = Ok (L', out) ->
+  keys (conns L') = keys (conns L) /\ keys (neurs L') = keys (neurs L).
+Proof.
+  unfold layer_forward. rewrite run_conns_mods.
+  destruct (run_mods _ (conns L) ins) as [[cs' ys]|e] eqn:E1; simpl; [|discriminate].
+  destruct (wiring ys) as [ws|e]; simpl; [|discriminate]. rewrite run_neurs_mods.
+  destruct (run_mods _ (neurs L) ws) as [[ns' zs]|e] eqn:E2; simpl; [|discriminate].
+  intros H; inversion H; subst; simpl. split; eapply run_mods_keys; eauto.
+Qed.
+Lemma keys_map_snd {A B} (f : Z * A -> Z * B) l : (forall p, fst (f p) = fst p) -> keys (map f l) = keys l.
+Proof. intros Hf. unfold keys. rewrite map_map. apply map_ext. auto. Qed.
+Lemma biclique_step_wf Bq o B' out : b_wf Bq -> bstep Bq o = Ok (B', out) -> b_wf B'.
+Proof.
+  intros (Hc & Hn & Hp). destruct o as [ins ckw nkw cap|sub xk|k f|k f]; simpl.
+  - unfold biclique_forward. destruct (lforward _ _ _ _ _) as [[L' o]|e] eqn:E; simpl; [|discriminate].
+    intros H; inversion H; subst. destruct (layer_forward_keys _ _ _ _ _ _ _ E) as [K1 K2].
+    unfold b_wf; simpl. rewrite K1, K2. auto.
+  - intros H; inversion H; subst. unfold b_wf; simpl. destruct sub; simpl; auto.
+    rewrite !keys_map_snd by auto. auto.
+  - intros H; inversion H; subst. unfold b_wf, layer_learn_c; simpl.
+    destruct (lookup k (conns (b_layer Bq))); simpl; auto. rewrite keys_update. auto.
+  - intros H; inversion H; subst. unfold b_wf, layer_learn_n; simpl.
+    destruct (lookup k (neurs (b_layer Bq))); simpl; auto. rewrite keys_update. auto.
+Qed.
+Definition bop_nodup (o : biclique_op V CS NS CK NK XK) : Prop :=
+  match o with BFwd ins _ _ _ => NoDup (keys ins) | _ => True end.
+Local Notation bsstep := (bspec_step V CS NS CK NK XK ck0 nk0 cstep nstep cclear nclear).
+(* biclique_forward over whole runs (the inputs are python dicts: their keys are distinct) *)
+Theorem biclique_run_spec ops Bq :
+  b_wf Bq -> Forall bop_nodup ops -> run bstep Bq ops = run bsstep Bq ops.
+Proof.
+  intros Hw Ho.
+  assert (Hs : forall s o, b_wf s -> bop_nodup o -> bstep s o = bsstep s o).
+  { intros s o Hws Hos. destruct o; simpl; auto. rewrite biclique_forward_spec; auto. }
+  rewrite (run_sim bstep bsstep (fun x => x) b_wf bop_nodup); auto.
+  - destruct (run bsstep Bq ops) as [[B' outs]|e]; reflexivity.
+  - intros s o H1 H2. rewrite Hs by auto. destruct (bsstep s o) as [[B' out]|e]; reflexivity.
+  - intros s o s' out H1 H2 H3. rewrite <- Hs in H3 by auto. eapply biclique_step_wf; eauto.
+Qed.
+
+(* ================= output shapes ================= *)
+Section Shapes.
+Variable Sh : Type.
+Variable vshape : V -> Sh.          (* shape of a tensor *)
+Variable nbshape : NS -> Sh.        (* batched shape of a neuron group *)
+Hypothesis Hn_shape : forall n kw x n' z, nstep n kw x = Ok (n', z) -> vshape z = nbshape n /\ nbshape n' = nbshape n.
+
+Definition shape_at (ns : list (Z * NS)) (k : Z) : option Sh := option_map nbshape (lookup k ns).
+Lemma shape_at_update ns k n n' k' :
+  lookup k ns = Some n -> nbshape n' = nbshape n -> shape_at (update k n' ns) k' = shape_at ns k'.
+Proof.
+  intros Hl Hs. unfold shape_at. destruct (Z.eq_dec k k') as [->|Hne].
+  - rewrite (lookup_update_same _ _ _ _ Hl), Hl. simpl. congruence.
+  - rewrite lookup_update_other; auto.
+Qed.
+Lemma run_neurs_shapes nkw ws : forall ns ns' zs,
+  run_neurs V NS NK nk0 nstep ns nkw ws = Ok (ns', zs) ->
+  Forall (fun p => shape_at ns (fst p) = Some (vshape (snd p))) zs /\ forall k, shape_at ns' k = shape_at ns k.
+Proof.
+  induction ws as [|[k w] tl IH]; intros ns ns' zs; simpl.
+  - intros H; inversion H; subst; auto.
+  - destruct (lookup k ns) as [n|] eqn:El; [|discriminate].
+    destruct (nstep n (getd k nkw nk0) w) as [[n' z]|e] eqn:Es; simpl; [|discriminate].
+    destruct (run_neurs V NS NK nk0 nstep (update k n' ns) nkw tl) as [[ns2 zs2]|e] eqn:Er; simpl; [|discriminate].
+    intros H; inversion H; subst. destruct (Hn_shape _ _ _ _ _ Es) as [S1 S2].
+    destruct (IH _ _ _ Er) as [F K]. split.
+    + constructor.
+      * simpl. unfold shape_at. rewrite El. simpl. congruence.
+      * eapply Forall_impl; [|exact F]. intros p Hp. rewrite <- Hp. symmetry. eapply shape_at_update; eauto.
+    + intros k'. rewrite K. eapply shape_at_update; eauto.
+Qed.
+(* output_shapes: whatever the wiring, every output of Layer.forward has the batched shape of the neuron group it is
+   named after, and the groups keep their shapes *)
+Theorem layer_output_shapes wiring L ins ckw nkw L' zs ys :
+  lforward wiring L ins ckw nkw = Ok (L', (zs, ys)) ->
+  Forall (fun p => shape_at (neurs L) (fst p) = Some (vshape (snd p))) zs /\
+  forall k, shape_at (neurs L') k = shape_at (neurs L) k.
+Proof.
+  unfold layer_forward.
+  destruct (run_conns _ _ _ _ _ _ _ _) as [[cs' ys']|e]; simpl; [|discriminate].
+  destruct (wiring ys') as [ws|e]; simpl; [|discriminate].
+  destruct (run_neurs V NS NK nk0 nstep (neurs L) nkw ws) as [[ns' zs']|e] eqn:E; simpl; [|discriminate].
+  intros H; inversion H; subst. simpl. eapply run_neurs_shapes; eauto.
+Qed.
+Lemma Forall_lookup {A} (P : Z * A -> Prop) k a l : Forall P l -> lookup k l = Some a -> P (k, a).
+Proof. intros Hl H. rewrite Forall_forall in Hl. apply Hl. apply lookup_Some_In; auto. Qed.
+Theorem serial_output_shape S xs ckw nkw S' z y :
+  sforward S xs ckw nkw = Ok (S', (z, y)) ->
+  shape_at (neurs (s_layer S)) (s_nn S) = Some (vshape z).
+Proof.
+  unfold serial_forward.
+  destruct (lforward _ _ _ _ _) as [[L' [zs ys]]|e] eqn:E; simpl; [|discriminate].
+  destruct (lookup (s_nn S) zs) as [z0|] eqn:E1; [|discriminate].
+  destruct (lookup (s_cn S) ys); [|discriminate].
+  intros H; inversion H; subst. destruct (layer_output_shapes _ _ _ _ _ _ _ _ E) as [F _].
+  apply (Forall_lookup _ _ _ _ F E1).
+Qed.
+Theorem biclique_output_shapes Bq ins ckw nkw B' zs ys :
+  bforward Bq ins ckw nkw = Ok (B', (zs, ys)) ->
+  Forall (fun p => shape_at (neurs (b_layer Bq)) (fst p) = Some (vshape (snd p))) zs.
+Proof.
+  unfold biclique_forward.
+  destruct (lforward _ _ _ _ _) as [[L' [zs' ys']]|e] eqn:E; simpl; [|discriminate].
+  intros H; inversion H; subst. eapply layer_output_shapes; eauto.
+Qed.
+Theorem recurrent_output_shapes R xs la fa kff klat kfb nkff nkfb R' zff zfb ys :
+  rforward R xs la fa kff klat kfb nkff nkfb = Ok (R', ((zff, zfb), ys)) ->
+  shape_at (neurs (r_layer R)) (r_ffn R) = Some (vshape zff) /\
+  shape_at (neurs (r_layer R)) (r_fbn R) = Some (vshape zfb).
+Proof.
+  unfold recurrent_forward.
+  destruct (match r_fbs R with Some v => Ok v | None => _ end) as [fbs|e]; simpl; [|discriminate].
+  destruct (lforward _ _ _ _ _) as [[L1 [zs1 ys1]]|e] eqn:E1; simpl; [|discriminate].
+  destruct (get_neuron CS NS L1 (r_ffn R)) as [nff|e]; simpl; [|discriminate].
+  destruct (lforward _ L1 _ _ _) as [[L2 [zs2 ys2]]|e] eqn:E2; simpl; [|discriminate].
+  destruct (get_neuron CS NS L2 (r_fbn R)) as [nfb|e]; simpl; [|discriminate].
+  destruct (lookup (r_ffn R) zs1) as [z1|] eqn:K1; [|discriminate].
+  destruct (lookup (r_fbn R) zs2) as [z2|] eqn:K2; [|discriminate].
+  intros H; inversion H; subst.
+  destruct (layer_output_shapes _ _ _ _ _ _ _ _ E1) as [F1 S1].
+  destruct (layer_output_shapes _ _ _ _ _ _ _ _ E2) as [F2 S2].
+  split.
+  - apply (Forall_lookup _ _ _ _ F1 K1).
+  - rewrite <- S1. apply (Forall_lookup _ _ _ _ F2 K2).
+Qed.
+End Shapes.
+
 (* ================= RecurrentSerial ================= *)
 Local Notation rsforward := (rspec_forward V CS NS CK NK ck0 nk0 cstep nstep nspike vzeros_like vadd).
 Local Notation rsstep := (rspec_step V CS NS CK NK XK ck0 nk0 cstep nstep nspike cclear nclear vzeros_like vadd).
@@ -545,4 +746,382 @@ Proof.
 Qed.
 End Documented.
 
+
+(* ================= clear() ================= *)
+(* abstract form, shared by the three layer kinds: a state machine with an invariant, a "freshly built with the same
+   learned state" function and a clear operation *)
+Section KindClear.
+Context {K Op O : Type}.
+Variable step : K -> Op -> res (K * O).
+Variable KI : K -> Prop.
+Variables ok frozen : Op -> Prop.
+Variable fresh : K -> K.
+Variable clr : Op.
+Variable oclr : O.
+Hypothesis H_inv : forall s o s' out, KI s -> ok o -> step s o = Ok (s', out) -> KI s'.
+Hypothesis H_clr : forall s, KI s -> step s clr = Ok (fresh s, oclr).
+Hypothesis H_frz : forall s o s' out, KI s -> frozen o -> step s o = Ok (s', out) -> fresh s' = fresh s.
+Hypothesis H_fok : forall o, frozen o -> ok o.
+
+Theorem kind_clear_restores ops s0 s outs :
+  KI s0 -> Forall ok ops -> run step s0 ops = Ok (s, outs) -> step s clr = Ok (fresh s, oclr).
+Proof. intros H0 Ho Hr. apply H_clr. eapply run_inv; eauto. Qed.
+
+Lemma run_frozen ops : forall s0 s outs,
+  KI s0 -> Forall frozen ops -> run step s0 ops = Ok (s, outs) -> KI s /\ fresh s = fresh s0.
+Proof.
+  induction ops as [|o tl IH]; intros s0 s outs H0 Hf; simpl.
+  - intros H; inversion H; subst; auto.
+  - inversion Hf; subst. destruct (step s0 o) as [[s1 out]|e] eqn:E; simpl; [|discriminate].
+    destruct (run step s1 tl) as [[s2 outs2]|e] eqn:E2; simpl; [|discriminate].
+    intros H; inversion H; subst.
+    destruct (IH s1 s outs2) as [I F]; eauto.
+    split; auto. rewrite F. eapply H_frz; eauto.
+Qed.
+
+(* clear at ANY position: after an arbitrary (learning-free) prefix, clear brings back the freshly built layer, so
+   the rest of the run - outputs and final state - is the run of the freshly built layer on the same operations *)
+Theorem kind_replay pre post s0 :
+  KI s0 -> fresh s0 = s0 -> Forall frozen pre ->
+  forall s1 opre, run step s0 pre = Ok (s1, opre) ->
+  run step s0 (pre ++ clr :: post) =
+  ('(s, opost) <- run step s0 post ;; Ok (s, opre ++ oclr :: opost)).
+Proof.
+  intros H0 Hf Hp s1 opre Hr.
+  destruct (run_frozen pre s0 s1 opre H0 Hp Hr) as [I1 F1].
+  rewrite run_app, Hr. simpl. rewrite (H_clr s1 I1). simpl. rewrite F1, Hf.
+  destruct (run step s0 post) as [[s opost]|e]; reflexivity.
+Qed.
+End KindClear.
+
+Section Clear.
+Variable cfresh : CS -> CS.      (* a newly constructed connection carrying the learned parameters of its argument *)
+Variable nfresh : NS -> NS.      (* a newly constructed neuron group carrying the adaptations of its argument *)
+Variable CI : CS -> Prop.        (* well-formedness invariants of the component states *)
+Variable NI : NS -> Prop.
+Variable keepk : XK -> Prop.     (* clear kwargs that keep learned adaptations (the default) *)
+Hypothesis Hc_clear : forall xk c, CI c -> cclear xk c = cfresh c.
+Hypothesis Hn_clear : forall xk n, keepk xk -> NI n -> nclear xk n = nfresh n.
+Hypothesis Hc_step : forall c kw x c' y, CI c -> cstep c kw x = Ok (c', y) -> CI c'.
+Hypothesis Hn_step : forall n kw x n' z, NI n -> nstep n kw x = Ok (n', z) -> NI n'.
+Hypothesis Hc_clear_inv : forall xk c, CI c -> CI (cclear xk c).
+Hypothesis Hn_clear_inv : forall xk n, NI n -> NI (nclear xk n).
+(* forward steps do not change what a fresh copy looks like (no learning inside forward) *)
+Hypothesis Hc_par : forall c kw x c' y, CI c -> cstep c kw x = Ok (c', y) -> cfresh c' = cfresh c.
+Hypothesis Hn_par : forall n kw x n' z, NI n -> nstep n kw x = Ok (n', z) -> nfresh n' = nfresh n.
+Hypothesis Hc_ff : forall c, cfresh (cfresh c) = cfresh c.
+Hypothesis Hn_ff : forall n, nfresh (nfresh n) = nfresh n.
+
+Definition on_snd {A B} (f : A -> B) (p : Z * A) : Z * B := (fst p, f (snd p)).
+Definition LI (L : layer CS NS) : Prop :=
+  Forall (fun p => CI (snd p)) (conns L) /\ Forall (fun p => NI (snd p)) (neurs L).
+Definition layer_fresh (L : layer CS NS) : layer CS NS :=
+  mkLayer (map (on_snd cfresh) (conns L)) (map (on_snd nfresh) (neurs L)).
+
+Lemma layer_clear_fresh xk L : keepk xk -> LI L -> lclear true xk L = layer_fresh L.
+Proof.
+  intros Hk [Hc Hn]. unfold layer_clear, layer_fresh. f_equal.
+  - apply map_ext_in. intros [k c] Hin. unfold on_snd; simpl. f_equal.
+    apply Hc_clear. rewrite Forall_forall in Hc. apply (Hc _ Hin).
+  - apply map_ext_in. intros [k n] Hin. unfold on_snd; simpl. f_equal.
+    apply Hn_clear; auto. rewrite Forall_forall in Hn. apply (Hn _ Hin).
+Qed.
+Lemma layer_clear_inv sub xk L : LI L -> LI (lclear sub xk L).
+Proof.
+  intros [Hc Hn]. destruct sub; simpl; [|split; auto]. split; simpl.
+  - rewrite Forall_map. eapply Forall_impl; [|exact Hc]. simpl. intros; apply Hc_clear_inv; auto.
+  - rewrite Forall_map. eapply Forall_impl; [|exact Hn]. simpl. intros; apply Hn_clear_inv; auto.
+Qed.
+Lemma layer_clear_fresh_same sub xk L : keepk xk -> LI L -> layer_fresh (lclear sub xk L) = layer_fresh L.
+Proof.
+  intros Hk HL. destruct sub; [|reflexivity]. rewrite (layer_clear_fresh xk L Hk HL).
+  unfold layer_fresh; simpl. rewrite !map_map. f_equal; apply map_ext; intros [k a]; unfold on_snd; simpl.
+  - rewrite Hc_ff; auto.
+  - rewrite Hn_ff; auto.
+Qed.
+
+Lemma Forall_update {A} (P : Z * A -> Prop) k a l :
+  Forall P l -> (forall k', P (k', a)) -> Forall P (update k a l).
+Proof.
+  intros Hl Ha. induction l as [|[k2 a2] t IH]; simpl; auto.
+  inversion Hl; subst. destruct (Z.eqb k k2); constructor; auto.
+Qed.
+Lemma lookup_Forall {A} (P : Z * A -> Prop) k a l : Forall P l -> lookup k l = Some a -> P (k, a).
+Proof. intros Hl H. rewrite Forall_forall in Hl. apply Hl. apply lookup_Some_In; auto. Qed.
+Lemma map_fresh_update {A} (f : A -> A) k a a' l :
+  lookup k l = Some a -> f a' = f a -> map (on_snd f) (update k a' l) = map (on_snd f) l.
+Proof.
+  induction l as [|[k2 a2] t IH]; simpl; auto.
+  destruct (Z.eqb k k2) eqn:E; simpl.
+  - intros H Hf; inversion H; subst. unfold on_snd; simpl. rewrite Hf. reflexivity.
+  - intros H Hf. f_equal. apply IH; auto.
+Qed.
+
+Lemma run_conns_inv ckw ins : forall cs cs' ys,
+  Forall (fun p => CI (snd p)) cs -> run_conns V CS CK ck0 cstep cs ckw ins = Ok (cs', ys) ->
+  Forall (fun p => CI (snd p)) cs' /\ map (on_snd cfresh) cs' = map (on_snd cfresh) cs.
+Proof.
+  induction ins as [|[k x] tl IH]; intros cs cs' ys Hc; simpl.
+  - intros H; inversion H; subst; auto.
+  - destruct (lookup k cs) as [c|] eqn:El; [|discriminate].
+    destruct (cstep c (getd k ckw ck0) x) as [[c' y]|e] eqn:Es; simpl; [|discriminate].
+    destruct (run_conns V CS CK ck0 cstep (update k c' cs) ckw tl) as [[cs2 ys2]|e] eqn:Er; simpl; [|discriminate].
+    intros H; inversion H; subst.
+    assert (Hci : CI c) by apply (lookup_Forall _ _ _ _ Hc El).
+    destruct (IH (update k c' cs) cs' ys2) as [I F]; auto.
+    { apply Forall_update; auto. intros; simpl. eapply Hc_step; eauto. }
+    split; auto. rewrite F. eapply map_fresh_update; eauto.
+Qed.
+Lemma run_neurs_inv nkw ws : forall ns ns' zs,
+  Forall (fun p => NI (snd p)) ns -> run_neurs V NS NK nk0 nstep ns nkw ws = Ok (ns', zs) ->
+  Forall (fun p => NI (snd p)) ns' /\ map (on_snd nfresh) ns' = map (on_snd nfresh) ns.
+Proof.
+  induction ws as [|[k x] tl IH]; intros ns ns' zs Hc; simpl.
+  - intros H; inversion H; subst; auto.
+  - destruct (lookup k ns) as [n|] eqn:El; [|discriminate].
+    destruct (nstep n (getd k nkw nk0) x) as [[n' z]|e] eqn:Es; simpl; [|discriminate].
+    destruct (run_neurs V NS NK nk0 nstep (update k n' ns) nkw tl) as [[ns2 zs2]|e] eqn:Er; simpl; [|discriminate].
+    intros H; inversion H; subst.
+    assert (Hni : NI n) by apply (lookup_Forall _ _ _ _ Hc El).
+    destruct (IH (update k n' ns) ns' zs2) as [I F]; auto.
+    { apply Forall_update; auto. intros; simpl. eapply Hn_step; eauto. }
+    split; auto. rewrite F. eapply map_fresh_update; eauto.
+Qed.
+(* Layer.forward with ANY wiring keeps the invariants and does not change what the fresh layer looks like *)
+Lemma layer_forward_inv wiring L ins ckw nkw L' out :
+  LI L -> lforward wiring L ins ckw nkw = Ok (L', out) -> LI L' /\ layer_fresh L' = layer_fresh L.
+Proof.
+  intros [Hc Hn]. unfold layer_forward.
+  destruct (run_conns V CS CK ck0 cstep (conns L) ckw ins) as [[cs' ys]|e] eqn:E1; simpl; [|discriminate].
+  destruct (wiring ys) as [ws|e]; simpl; [|discriminate].
+  destruct (run_neurs V NS NK nk0 nstep (neurs L) nkw ws) as [[ns' zs]|e] eqn:E2; simpl; [|discriminate].
+  intros H; inversion H; subst.
+  destruct (run_conns_inv _ _ _ _ _ Hc E1) as [I1 F1]. destruct (run_neurs_inv _ _ _ _ _ Hn E2) as [I2 F2].
+  split; [split; auto|]. unfold layer_fresh; simpl. rewrite F1, F2. reflexivity.
+Qed.
+Lemma layer_learn_c_inv k f L : (forall c, CI c -> CI (f c)) -> LI L -> LI (layer_learn_c CS NS k f L).
+Proof.
+  intros Hf [Hc Hn]. unfold layer_learn_c. destruct (lookup k (conns L)) as [c|] eqn:E; [|split; auto].
+  split; simpl; auto. apply Forall_update; auto. intros; simpl. apply Hf. apply (lookup_Forall _ _ _ _ Hc E).
+Qed.
+Lemma layer_learn_n_inv k f L : (forall n, NI n -> NI (f n)) -> LI L -> LI (layer_learn_n CS NS k f L).
+Proof.
+  intros Hf [Hc Hn]. unfold layer_learn_n. destruct (lookup k (neurs L)) as [n|] eqn:E; [|split; auto].
+  split; simpl; auto. apply Forall_update; auto. intros; simpl. apply Hf. apply (lookup_Forall _ _ _ _ Hn E).
+Qed.
+
+(* ---- Serial ---- *)
+Definition sop_ok (o : serial_op V CS NS CK NK XK) : Prop :=
+  match o with
+  | SLearnC f => forall c, CI c -> CI (f c)
+  | SLearnN f => forall n, NI n -> NI (f n)
+  | _ => True
+  end.
+Definition sop_frozen (o : serial_op V CS NS CK NK XK) : Prop :=
+  match o with SFwd _ _ _ _ => True | SClear _ xk => keepk xk | _ => False end.
+Definition serial_fresh (S : serial V CS NS) : serial V CS NS :=
+  mkSerial (layer_fresh (s_layer S)) (s_cn S) (s_nn S) (s_tr S).
+Lemma serial_forward_inv S xs ckw nkw S' out :
+  LI (s_layer S) -> sforward S xs ckw nkw = Ok (S', out) -> LI (s_layer S') /\ serial_fresh S' = serial_fresh S.
+Proof.
+  intros HL. unfold serial_forward.
+  destruct (lforward _ _ _ _ _) as [[L' [zs ys]]|e] eqn:E; simpl; [|discriminate].
+  destruct (lookup (s_nn S) zs); [|discriminate]. destruct (lookup (s_cn S) ys); [|discriminate].
+  intros H; inversion H; subst. destruct (layer_forward_inv _ _ _ _ _ _ _ HL E) as [I F].
+  split; auto. unfold serial_fresh; simpl. rewrite F. reflexivity.
+Qed.
+Lemma serial_step_inv S o S' out :
+  LI (s_layer S) -> sop_ok o -> sstep S o = Ok (S', out) -> LI (s_layer S').
+Proof.
+  intros HL Ho. destruct o as [xs ckw nkw cap|sub xk|f|f]; simpl.
+  - destruct (sforward S xs ckw nkw) as [[S1 o1]|e] eqn:E; simpl; [|discriminate].
+    intros H; inversion H; subst. eapply serial_forward_inv; eauto.
+  - intros H; inversion H; subst; simpl. apply layer_clear_inv; auto.
+  - intros H; inversion H; subst; simpl. apply layer_learn_c_inv; auto.
+  - intros H; inversion H; subst; simpl. apply layer_learn_n_inv; auto.
+Qed.
+Lemma serial_step_frozen S o S' out :
+  LI (s_layer S) -> sop_frozen o -> sstep S o = Ok (S', out) -> serial_fresh S' = serial_fresh S.
+Proof.
+  intros HL Ho. destruct o as [xs ckw nkw cap|sub xk|f|f]; simpl in *; try tauto.
+  - destruct (sforward S xs ckw nkw) as [[S1 o1]|e] eqn:E; simpl; [|discriminate].
+    intros H; inversion H; subst. eapply serial_forward_inv; eauto.
+  - intros H; inversion H; subst. unfold serial_fresh, serial_clear; simpl.
+    rewrite layer_clear_fresh_same; auto.
+Qed.
+
+(* clear_restores_dynamic (Serial): after ANY run - forwards, clears with any flags, parameter assignments - clear()
+   leaves exactly the freshly built layer carrying the current learned parameters and adaptations *)
+Theorem serial_clear_restores_dynamic S0 ops S outs xk :
+  LI (s_layer S0) -> Forall sop_ok ops -> keepk xk ->
+  run sstep S0 ops = Ok (S, outs) ->
+  sstep S (SClear true xk) = Ok (serial_fresh S, None).
+Proof.
+  intros H0 Ho Hk Hr.
+  assert (HS : LI (s_layer S)).
+  { eapply (run_inv sstep (fun S => LI (s_layer S)) sop_ok); eauto. intros; eapply serial_step_inv; eauto. }
+  simpl. unfold serial_clear, serial_fresh. rewrite layer_clear_fresh; auto.
+Qed.
+(* clear_replay_deterministic (Serial): clear at any position of a learning-free run, then any operations: same
+   outputs and final state as the freshly built layer on those operations *)
+Theorem serial_clear_replay S0 pre post xk S1 opre :
+  LI (s_layer S0) -> serial_fresh S0 = S0 -> Forall sop_frozen pre -> keepk xk ->
+  run sstep S0 pre = Ok (S1, opre) ->
+  run sstep S0 (pre ++ SClear true xk :: post) =
+  ('(S2, opost) <- run sstep S0 post ;; Ok (S2, opre ++ None :: opost)).
+Proof.
+  intros H0 Hf Hp Hk Hr.
+  apply (kind_replay sstep (fun S => LI (s_layer S)) sop_ok sop_frozen serial_fresh (SClear true xk) None)
+    with (s1 := S1); auto.
+  - intros; eapply serial_step_inv; eauto.
+  - intros s Hs. simpl. unfold serial_clear, serial_fresh. rewrite layer_clear_fresh; auto.
+  - intros; eapply serial_step_frozen; eauto.
+  - intros [] Hx; simpl in *; auto; tauto.
+Qed.
+
+
+(* ---- Biclique ---- *)
+Definition bop_ok (o : biclique_op V CS NS CK NK XK) : Prop :=
+  match o with
+  | BLearnC _ f => forall c, CI c -> CI (f c)
+  | BLearnN _ f => forall n, NI n -> NI (f n)
+  | _ => True
+  end.
+Definition bop_frozen (o : biclique_op V CS NS CK NK XK) : Prop :=
+  match o with BFwd _ _ _ _ => True | BClear _ xk => keepk xk | _ => False end.
+Definition biclique_fresh (Bq : biclique V CS NS) : biclique V CS NS :=
+  mkBiclique (layer_fresh (b_layer Bq)) (b_post Bq) (b_pre Bq) (b_combine Bq).
+Lemma biclique_forward_inv Bq ins ckw nkw B' out :
+  LI (b_layer Bq) -> bforward Bq ins ckw nkw = Ok (B', out) ->
+  LI (b_layer B') /\ biclique_fresh B' = biclique_fresh Bq.
+Proof.
+  intros HL. unfold biclique_forward.
+  destruct (lforward _ _ _ _ _) as [[L' o]|e] eqn:E; simpl; [|discriminate].
+  intros H; inversion H; subst. destruct (layer_forward_inv _ _ _ _ _ _ _ HL E) as [I F].
+  split; auto. unfold biclique_fresh; simpl. rewrite F. reflexivity.
+Qed.
+Lemma biclique_step_inv Bq o B' out :
+  LI (b_layer Bq) -> bop_ok o -> bstep Bq o = Ok (B', out) -> LI (b_layer B').
+Proof.
+  intros HL Ho. destruct o as [ins ckw nkw cap|sub xk|k f|k f]; simpl.
+  - destruct (bforward Bq ins ckw nkw) as [[B1 o1]|e] eqn:E; simpl; [|discriminate].
+    intros H; inversion H; subst. eapply biclique_forward_inv; eauto.
+  - intros H; inversion H; subst; simpl. apply layer_clear_inv; auto.
+  - intros H; inversion H; subst; simpl. apply layer_learn_c_inv; auto.
+  - intros H; inversion H; subst; simpl. apply layer_learn_n_inv; auto.
+Qed.
+Lemma biclique_step_frozen Bq o B' out :
+  LI (b_layer Bq) -> bop_frozen o -> bstep Bq o = Ok (B', out) -> biclique_fresh B' = biclique_fresh Bq.
+Proof.
+  intros HL Ho. destruct o as [ins ckw nkw cap|sub xk|k f|k f]; simpl in *; try tauto.
+  - destruct (bforward Bq ins ckw nkw) as [[B1 o1]|e] eqn:E; simpl; [|discriminate].
+    intros H; inversion H; subst. eapply biclique_forward_inv; eauto.
+  - intros H; inversion H; subst. unfold biclique_fresh, biclique_clear; simpl.
+    rewrite layer_clear_fresh_same; auto.
+Qed.
+Theorem biclique_clear_restores_dynamic B0 ops Bq outs xk :
+  LI (b_layer B0) -> Forall bop_ok ops -> keepk xk ->
+  run bstep B0 ops = Ok (Bq, outs) ->
+  bstep Bq (BClear true xk) = Ok (biclique_fresh Bq, None).
+Proof.
+  intros H0 Ho Hk Hr.
+  assert (HS : LI (b_layer Bq)).
+  { eapply (run_inv bstep (fun S => LI (b_layer S)) bop_ok); eauto. intros; eapply biclique_step_inv; eauto. }
+  simpl. unfold biclique_clear, biclique_fresh. rewrite layer_clear_fresh; auto.
+Qed.
+Theorem biclique_clear_replay B0 pre post xk B1 opre :
+  LI (b_layer B0) -> biclique_fresh B0 = B0 -> Forall bop_frozen pre -> keepk xk ->
+  run bstep B0 pre = Ok (B1, opre) ->
+  run bstep B0 (pre ++ BClear true xk :: post) =
+  ('(B2, opost) <- run bstep B0 post ;; Ok (B2, opre ++ None :: opost)).
+Proof.
+  intros H0 Hf Hp Hk Hr.
+  apply (kind_replay bstep (fun S => LI (b_layer S)) bop_ok bop_frozen biclique_fresh (BClear true xk) None)
+    with (s1 := B1); auto.
+  - intros; eapply biclique_step_inv; eauto.
+  - intros s Hs. simpl. unfold biclique_clear, biclique_fresh. rewrite layer_clear_fresh; auto.
+  - intros; eapply biclique_step_frozen; eauto.
+  - intros [] Hx; simpl in *; auto; tauto.
+Qed.
+
+(* ---- RecurrentSerial ---- *)
+Definition rop_ok2 (o : recurrent_op V CS NS CK NK XK) : Prop :=
+  match o with
+  | RLearnC _ f => forall c, CI c -> CI (f c)
+  | RLearnN _ f => forall n, NI n -> NI (f n)
+  | _ => True
+  end.
+Definition rop_frozen (o : recurrent_op V CS NS CK NK XK) : Prop :=
+  match o with RFwd _ _ _ _ _ _ _ _ _ => True | RClear _ _ xk => keepk xk | _ => False end.
+(* a freshly built recurrent layer: fresh components and NO stored feedback spikes *)
+Definition recurrent_fresh (R : recurrent V CS NS) : recurrent V CS NS :=
+  r_with V CS NS R (layer_fresh (r_layer R)) None.
+Lemma recurrent_forward_inv R xs la fa kff klat kfb nkff nkfb R' out :
+  LI (r_layer R) -> rforward R xs la fa kff klat kfb nkff nkfb = Ok (R', out) ->
+  LI (r_layer R') /\ recurrent_fresh R' = recurrent_fresh R.
+Proof.
+  intros HL. unfold recurrent_forward.
+  destruct (match r_fbs R with Some v => Ok v | None => _ end) as [fbs|e]; simpl; [|discriminate].
+  destruct (lforward _ _ _ _ _) as [[L1 [zs1 ys1]]|e] eqn:E1; simpl; [|discriminate].
+  destruct (layer_forward_inv _ _ _ _ _ _ _ HL E1) as [I1 F1].
+  destruct (get_neuron CS NS L1 (r_ffn R)) as [nff|e]; simpl; [|discriminate].
+  destruct (lforward _ L1 _ _ _) as [[L2 [zs2 ys2]]|e] eqn:E2; simpl; [|discriminate].
+  destruct (layer_forward_inv _ _ _ _ _ _ _ I1 E2) as [I2 F2].
+  destruct (get_neuron CS NS L2 (r_fbn R)) as [nfb|e]; simpl; [|discriminate].
+  destruct (lookup (r_ffn R) zs1); [|discriminate]. destruct (lookup (r_fbn R) zs2); [|discriminate].
+  intros H; inversion H; subst. split; auto.
+  unfold recurrent_fresh, r_with; simpl. rewrite F2, F1. reflexivity.
+Qed.
+Lemma recurrent_step_inv R o R' out :
+  LI (r_layer R) -> rop_ok2 o -> rstep R o = Ok (R', out) -> LI (r_layer R').
+Proof.
+  intros HL Ho. destruct o as [xs la fa kff klat kfb nkff nkfb cap|cf sub xk|k f|k f]; simpl.
+  - destruct (rforward R xs la fa kff klat kfb nkff nkfb) as [[R1 o1]|e] eqn:E; simpl; [|discriminate].
+    intros H; inversion H; subst. eapply recurrent_forward_inv; eauto.
+  - intros H; inversion H; subst; simpl. apply layer_clear_inv; auto.
+  - intros H; inversion H; subst; simpl. apply layer_learn_c_inv; auto.
+  - intros H; inversion H; subst; simpl. apply layer_learn_n_inv; auto.
+Qed.
+Lemma recurrent_step_frozen R o R' out :
+  LI (r_layer R) -> rop_frozen o -> rstep R o = Ok (R', out) -> recurrent_fresh R' = recurrent_fresh R.
+Proof.
+  intros HL Ho. destruct o as [xs la fa kff klat kfb nkff nkfb cap|cf sub xk|k f|k f]; simpl in *; try tauto.
+  - destruct (rforward R xs la fa kff klat kfb nkff nkfb) as [[R1 o1]|e] eqn:E; simpl; [|discriminate].
+    intros H; inversion H; subst. eapply recurrent_forward_inv; eauto.
+  - intros H; inversion H; subst. unfold recurrent_fresh, recurrent_clear, r_with; simpl.
+    rewrite layer_clear_fresh_same; auto.
+Qed.
+(* clear() (both flags at their defaults) after ANY run: fresh components and the feedback buffer back to None *)
+Theorem recurrent_clear_restores_dynamic R0 ops R outs xk :
+  LI (r_layer R0) -> Forall rop_ok2 ops -> keepk xk ->
+  run rstep R0 ops = Ok (R, outs) ->
+  rstep R (RClear true true xk) = Ok (recurrent_fresh R, None).
+Proof.
+  intros H0 Ho Hk Hr.
+  assert (HS : LI (r_layer R)).
+  { eapply (run_inv rstep (fun S => LI (r_layer S)) rop_ok2); eauto. intros; eapply recurrent_step_inv; eauto. }
+  simpl. unfold recurrent_clear, recurrent_fresh. rewrite layer_clear_fresh; auto.
+Qed.
+Theorem recurrent_clear_replay R0 pre post xk R1 opre :
+  LI (r_layer R0) -> recurrent_fresh R0 = R0 -> Forall rop_frozen pre -> keepk xk ->
+  run rstep R0 pre = Ok (R1, opre) ->
+  run rstep R0 (pre ++ RClear true true xk :: post) =
+  ('(R2, opost) <- run rstep R0 post ;; Ok (R2, opre ++ None :: opost)).
+Proof.
+  intros H0 Hf Hp Hk Hr.
+  apply (kind_replay rstep (fun S => LI (r_layer S)) rop_ok2 rop_frozen recurrent_fresh (RClear true true xk) None)
+    with (s1 := R1); auto.
+  - intros; eapply recurrent_step_inv; eauto.
+  - intros s Hs. simpl. unfold recurrent_clear, recurrent_fresh. rewrite layer_clear_fresh; auto.
+  - intros; eapply recurrent_step_frozen; eauto.
+  - intros [] Hx; simpl in *; auto; tauto.
+Qed.
+(* as coded and documented, clear(clear_feedback=False) keeps the stored feedback spikes: it restores the fresh
+   layer only when there are none *)
+Theorem recurrent_clear_keep_feedback R xk :
+  LI (r_layer R) -> keepk xk ->
+  rstep R (RClear false true xk) = Ok (r_with V CS NS R (layer_fresh (r_layer R)) (r_fbs R), None).
+Proof. intros HL Hk. simpl. unfold recurrent_clear. rewrite layer_clear_fresh; auto. Qed.
+
+End Clear.
 End Proofs.
